@@ -2224,6 +2224,7 @@ impl<'comments> Formatter<'comments> {
             }
             | UntypedExpr::PipeLine { .. }
             | UntypedExpr::BinOp { .. }
+            | UntypedExpr::TraceIfFalse { .. }
             | UntypedExpr::UnOp { .. } => "(".to_doc().append(self.expr(expr, false)).append(")"),
             _ => self.wrap_expr(expr),
         }
